@@ -145,16 +145,26 @@ Print Assumptions C01_b64_rejects_bad_length.
    queues ([tr_run], explicit fuel; [tr_fuel] = the number of messages of the transfer).
    Protocol >= 2 (frames of ARBITRARY sizes, per-frame acks, final ack, COMP flag) and protocol 1
    (stop and wait); plain names and JSON names / directory mode; overwrite on and off through
-   Names.v's creation functions on the abstract file system; upload and download (who says EXIT).
-   External code is abstract: MD5 = [H] (nothing is assumed of it: on a fault-free link both ends
-   hash the same bytes), digest comparison [deq] reflexive, zstd / zlib = any coder with the round
-   trip whose output consists of bytes.
-   NOT covered (the machines enter an ..Unmodelled phase, which no theorem counts as success): the
-   archive stream for directories with protocol >= 4 and overwrite off (C15) and the resume
-   exchange of protocol >= 3 onto a non-empty existing file (C08). *)
+   Names.v's creation functions on the abstract file system; upload and download (who says EXIT);
+   the ARCHIVE stream (protocol >= 4, overwrite off: archiveSourceFiles = [tr_group] bundles the
+   entries of a path id, the item is named with archive:true and its file is the entry stream of
+   Model/Archive.v, read with any buffer sizes, written through the archive writer cut in any way,
+   composed with the lemmas behind C15_reader / C15_size / C15_writer); the RESUME exchange (protocol
+   >= 3 onto a non-empty existing file: the HASH records / answers / Over of Model/Resume.v message by
+   message, then the rest of the file from the agreed offset, composed with the lemmas behind
+   C08_agree / C08_identical).  No mode is left out: the machines have no "unmodelled" phase.
+   External code is abstract: MD5 of a whole file = [H] (nothing is assumed of it: on a fault-free
+   link both ends hash the same bytes), digest comparison [deq] reflexive, zstd / zlib = any coder
+   with the round trip whose output consists of bytes, the hex digest of a prefix = [hx] (resume: the
+   compared prefixes do not collide - C08_identical's premise, [tr_resume_safe]), the header coding of
+   archive entries = [ahdr] / [aparse] (decoder inverts encoder on the entries at hand, no newline and
+   only bytes in an encoded header - C15's premise, [tr_hdrs_ok]).
+   [tr_run] takes the list checkPathsReadable produces; [tr_group c ess] is the list sendFiles loops
+   over (the items); the premises speak about the items. *)
 From Coq Require Import ZArith.
 From Trzsz Require Import Model.Path Model.Fs Model.Names Model.RelayNeg Model.Transfer
-  Proofs.PathFs Proofs.TransferFs Proofs.Transfer Proofs.RelayNeg.
+  Proofs.PathFs Proofs.TransferFs Proofs.Transfer Proofs.TransferGroup Proofs.RelayNeg.
+From Trzsz Require Model.Resume Model.Archive.
 
 Section C01_transfer.
 Variable digest : Type.
@@ -169,74 +179,114 @@ Variable zl : list byte -> list byte.
 Variable unzl : list byte -> option (list byte).
 Hypothesis zl_roundtrip : forall d, unzl (zl d) = Some d.
 Hypothesis zl_bytes : forall d, bytes_ok (zl d) = true.
+Variable hx : list byte -> Resume.digest.
+Variable ahdr : src -> Z -> list byte.
+Variable aparse : list byte -> option (src * Z).
+
+Notation run := (tr_run digest H deq zcomp zdecomp zl unzl hx ahdr aparse).
+Notation fuel_of := (tr_fuel digest zcomp hx ahdr aparse).
+Notation spec_of := (tr_spec hx ahdr aparse).
 
 (* For every configuration, every list of source entries with a per-file schedule (frame sizes,
-   the compression heuristic's verdict, the receiver's disk progress), every prior file system:
+   the compression heuristic's verdict, the receiver's disk progress, when the hash sender stops, the
+   buffer sizes of the archive reader and writer), every prior file system:
    if the escape table is absent or well-formed, the contents are bytes, the destination is a
-   directory, the source list is well-formed ([tr_wf]: what checkPathsReadable / checkDuplicateNames
-   guarantee) and the receiver's name handling accepts every entry ([tr_spec] <> None: no name
-   exhaustion, no path collision, no resume — the premise of the Names theorems, cf.
+   directory, the list sendFiles loops over is well-formed ([tr_wf]: what checkPathsReadable /
+   checkDuplicateNames / archiveSourceFiles guarantee), the headers of archive entries decode
+   ([tr_hdrs_ok]), the prefix digests a resume compares do not collide ([tr_resume_safe]) and the
+   receiver's name handling accepts every item ([tr_spec] <> None: no name exhaustion, no path
+   collision, the resume exchange completes - the premise of the Names theorems, cf.
    C07_consistent_names_full), then with fuel [tr_fuel] or more the run ends with BOTH sides
    reporting success, both queues empty, the sender's remote names = the receiver's local names,
-   every entry at its place below its reported name with the source's bytes ([tr_tree_at]), and a
-   transcript of the shape of the grammar. *)
+   every member of every item (itself and its SubFiles) at its place below its reported name with
+   the source's bytes ([tr_tree_at]), and a transcript of the shape of the grammar. *)
 Theorem C01_transfer : forall c d ess f0 per all stf,
-  tr_table_ok c -> Forall (fun es => bytes_ok (te_data (fst es)) = true) ess ->
-  stat f0 d = SFound Dir -> tr_wf c (map fst ess) ->
-  tr_spec c d (map fst ess) (init_state f0) [] = Some (per, all, stf) ->
-  forall fuel, (tr_fuel digest zcomp c ess <= fuel)%nat ->
-  tr_outcome_ok c d f0 ess (tr_run digest H deq zcomp zdecomp zl unzl fuel c d ess f0).
-Proof. exact (transfer_ok digest H deq zcomp zdecomp zl unzl deq_refl z_roundtrip z_bytes zl_roundtrip zl_bytes). Qed.
+  let items := tr_group c ess in
+  tr_table_ok c -> tr_bytes_ok items ->
+  stat f0 d = SFound Dir -> tr_wf c (map fst items) -> tr_hdrs_ok ahdr aparse (map fst items) ->
+  tr_resume_safe hx ahdr aparse c d items (init_state f0) ->
+  spec_of c d items (init_state f0) [] = Some (per, all, stf) ->
+  forall fuel, (fuel_of c d ess f0 <= fuel)%nat ->
+  tr_outcome_ok c d f0 items (run fuel c d ess f0).
+Proof.
+  intros c d ess f0 per all stf.
+  exact (transfer_ok digest H deq zcomp zdecomp zl unzl hx ahdr aparse deq_refl z_roundtrip z_bytes zl_roundtrip zl_bytes
+           c d (tr_group c ess) f0 per all stf).
+Qed.
 
-(* the run itself, exactly: final states, and the receiver's file system is the one Names.v computes *)
+(* the run itself, exactly: final states, and the receiver's file system is the one the specification computes *)
 Theorem C01_transfer_final : forall c d ess f0 per all stf,
-  tr_table_ok c -> Forall (fun es => bytes_ok (te_data (fst es)) = true) ess ->
-  tr_spec c d (map fst ess) (init_state f0) [] = Some (per, all, stf) ->
-  forall fuel, (tr_fuel digest zcomp c ess <= fuel)%nat ->
-  tr_run digest H deq zcomp zdecomp zl unzl fuel c d ess f0 =
-  mkConf digest (mkSS SpDone [] all) (mkRS RpDone O stf all []) [] [] (full_log digest H zcomp zl c ess per all).
-Proof. exact (run_complete digest H deq zcomp zdecomp zl unzl deq_refl z_roundtrip z_bytes zl_roundtrip zl_bytes). Qed.
+  let items := tr_group c ess in
+  tr_table_ok c -> tr_bytes_ok items -> tr_wf c (map fst items) -> tr_hdrs_ok ahdr aparse (map fst items) ->
+  spec_of c d items (init_state f0) [] = Some (per, all, stf) ->
+  forall fuel, (fuel_of c d ess f0 <= fuel)%nat ->
+  run fuel c d ess f0 =
+  mkConf digest (mkSS SpDone [] all) (mkRS RpDone O stf all []) [] [] (full_log digest H zcomp zl hx ahdr aparse c d items f0 per all).
+Proof.
+  intros c d ess f0 per all stf items Ht Hb Hwf Hh.
+  exact (run_complete digest H deq zcomp zdecomp zl unzl hx ahdr aparse deq_refl z_roundtrip z_bytes zl_roundtrip zl_bytes
+           c d items f0 per all stf Ht (items_ok ahdr aparse c items Hb Hwf Hh)).
+Qed.
 
 (* The converse direction of the same composition: whenever the run has enough fuel or has come
    to rest, success reported by EITHER side implies all of the above.  (If the receiver refuses an
-   entry, or an unmodelled exchange would start, neither side ever reports success.) *)
+   item, or the hash sender of a resume stops before the verdict, neither side ever reports success.) *)
 Theorem C01_success_implies_identical : forall c d ess f0,
-  tr_table_ok c -> Forall (fun es => bytes_ok (te_data (fst es)) = true) ess ->
-  Forall (fun es => te_isdir (fst es) = true -> tr_json c = true) ess ->
-  stat f0 d = SFound Dir -> tr_wf c (map fst ess) ->
+  let items := tr_group c ess in
+  tr_table_ok c -> tr_bytes_ok items ->
+  Forall (fun es => te_isdir (fst es) = true -> tr_json c = true) items ->
+  stat f0 d = SFound Dir -> tr_wf c (map fst items) -> tr_hdrs_ok ahdr aparse (map fst items) ->
+  tr_resume_safe hx ahdr aparse c d items (init_state f0) ->
   forall fuel,
-  (tr_fuel digest zcomp c ess <= fuel)%nat \/ tr_quiet digest (tr_run digest H deq zcomp zdecomp zl unzl fuel c d ess f0) = true ->
-  tr_sender_ok digest (tr_run digest H deq zcomp zdecomp zl unzl fuel c d ess f0) = true \/
-  tr_receiver_ok digest (tr_run digest H deq zcomp zdecomp zl unzl fuel c d ess f0) = true ->
-  tr_outcome_ok c d f0 ess (tr_run digest H deq zcomp zdecomp zl unzl fuel c d ess f0).
-Proof. exact (success_implies_ok digest H deq zcomp zdecomp zl unzl deq_refl z_roundtrip z_bytes zl_roundtrip zl_bytes). Qed.
+  (fuel_of c d ess f0 <= fuel)%nat \/ tr_quiet digest (run fuel c d ess f0) = true ->
+  tr_sender_ok digest (run fuel c d ess f0) = true \/ tr_receiver_ok digest (run fuel c d ess f0) = true ->
+  tr_outcome_ok c d f0 items (run fuel c d ess f0).
+Proof.
+  intros c d ess f0.
+  exact (success_implies_ok digest H deq zcomp zdecomp zl unzl hx ahdr aparse deq_refl z_roundtrip z_bytes zl_roundtrip zl_bytes
+           c d (tr_group c ess) f0).
+Qed.
 
 Theorem C01_refused_never_succeeds : forall c d ess f0,
-  tr_table_ok c -> Forall (fun es => bytes_ok (te_data (fst es)) = true) ess ->
-  Forall (fun es => te_isdir (fst es) = true -> tr_json c = true) ess ->
-  tr_spec c d (map fst ess) (init_state f0) [] = None ->
-  forall fuel, (tr_fuel digest zcomp c ess <= fuel)%nat ->
-  tr_sender_ok digest (tr_run digest H deq zcomp zdecomp zl unzl fuel c d ess f0) = false /\
-  tr_receiver_ok digest (tr_run digest H deq zcomp zdecomp zl unzl fuel c d ess f0) = false.
-Proof. exact (run_incomplete digest H deq zcomp zdecomp zl unzl deq_refl z_roundtrip z_bytes zl_roundtrip zl_bytes). Qed.
+  let items := tr_group c ess in
+  tr_table_ok c -> tr_bytes_ok items ->
+  Forall (fun es => te_isdir (fst es) = true -> tr_json c = true) items ->
+  tr_wf c (map fst items) -> tr_hdrs_ok ahdr aparse (map fst items) ->
+  spec_of c d items (init_state f0) [] = None ->
+  forall fuel, (fuel_of c d ess f0 <= fuel)%nat ->
+  tr_sender_ok digest (run fuel c d ess f0) = false /\ tr_receiver_ok digest (run fuel c d ess f0) = false.
+Proof.
+  intros c d ess f0 items Ht Hb Hdj Hwf Hh.
+  exact (run_incomplete digest H deq zcomp zdecomp zl unzl hx ahdr aparse deq_refl z_roundtrip z_bytes zl_roundtrip zl_bytes
+           c d items f0 Ht (items_ok ahdr aparse c items Hb Hwf Hh) Hdj).
+Qed.
 
 (* The acceptance premise discharged by a condition on the inputs alone ([tr_ready]): clean names
    (checkFileName accepts them, no NUL, at most 255 bytes), no two entries at one place, parents
-   first, one top-level name per path id, a clean destination path, and nothing in the way at the
-   destination.  Then the transfer ALWAYS completes, for uploads and downloads, protocol 1 to 4,
-   plain and directory mode, overwrite on and off, every frame-size schedule; the names are the
-   names as sent; and the destination differs from what it was in the entries' own places only
-   (so below the reported names it IS the source tree, nothing more). *)
+   first, one top-level name per path id, a clean destination path; at the destination nothing in the
+   way - or, with overwrite on, a regular file where a file goes (protocol >= 3 then RESUMES onto it;
+   the hash sender stops only after the verdict and the compared prefix digests do not collide);
+   SubFiles (archive mode) well-formed below a directory.  Then the transfer ALWAYS completes, for
+   uploads and downloads, protocol 1 to 4, plain and directory mode, overwrite on and off, the archive
+   stream and the resume exchange included, for every schedule; the names are the names as sent; and
+   the destination differs from what it was in the entries' own places only (an archive: in what is
+   below its name). *)
 Theorem C01_transfer_ready : forall c d ess f0,
-  tr_table_ok c -> Forall (fun es => bytes_ok (te_data (fst es)) = true) ess ->
-  stat f0 d = SFound Dir -> Forall tr_comp_ok d -> tr_ready c d f0 (map fst ess) ->
-  forall fuel, (tr_fuel digest zcomp c ess <= fuel)%nat ->
-  let cf := tr_run digest H deq zcomp zdecomp zl unzl fuel c d ess f0 in
-  tr_outcome_ok c d f0 ess cf /\
-  ss_names (cf_s digest cf) = fold_left tr_add_name (map (tr_key c) (map fst ess)) [] /\
-  (forall q, q <> [] -> (forall e, In e (map fst ess) -> q <> tr_leaf_of c d e) ->
+  let items := tr_group c ess in
+  tr_table_ok c -> tr_bytes_ok items ->
+  stat f0 d = SFound Dir -> Forall tr_comp_ok d -> tr_ready hx c d f0 items -> tr_hdrs_ok ahdr aparse (map fst items) ->
+  forall fuel, (fuel_of c d ess f0 <= fuel)%nat ->
+  let cf := run fuel c d ess f0 in
+  tr_outcome_ok c d f0 items cf /\
+  ss_names (cf_s digest cf) = fold_left tr_add_name (map (tr_key c) (map fst items)) [] /\
+  (forall q, q <> [] ->
+     (forall e, In e (map fst items) -> q <> tr_leaf_of c d e /\ (te_subs e <> [] -> is_prefix (tr_leaf_of c d e) q = false)) ->
      lookup (st_fs (rs_st (cf_r digest cf))) q = lookup f0 q).
-Proof. exact (transfer_ready digest H deq zcomp zdecomp zl unzl deq_refl z_roundtrip z_bytes zl_roundtrip zl_bytes). Qed.
+Proof.
+  intros c d ess f0.
+  exact (transfer_ready digest H deq zcomp zdecomp zl unzl hx ahdr aparse deq_refl z_roundtrip z_bytes zl_roundtrip zl_bytes
+           c d (tr_group c ess) f0).
+Qed.
 End C01_transfer.
 
 Print Assumptions C01_transfer.
@@ -246,14 +296,23 @@ Print Assumptions C01_refused_never_succeeds.
 Print Assumptions C01_transfer_ready.
 
 (* The sequence of message TYPES of a transfer is a word of the grammar
-     NUM SUCC (NAME SUCC [SIZE SUCC [COMP] DATA* finish ack* SUCC+ MD5 SUCC])* EXIT       protocol >= 2
-     NUM SUCC (NAME SUCC [SIZE SUCC (DATA SUCC)* MD5 SUCC])* EXIT                          protocol 1
-   ([tr_shape_ok]: a deterministic automaton over the tags), for every configuration, entry list,
-   schedule and list of local names: no hypothesis at all. *)
-Theorem C01_transcript_shape : forall digest H zcomp zl c ess per all,
-  tr_shape_ok digest (tr_pipeline c) (full_log digest H zcomp zl c ess per all) = true.
+     NUM SUCC (NAME SUCC [resume] [SIZE SUCC [COMP] DATA* finish ack* SUCC+ MD5 SUCC])* EXIT       protocol >= 2
+        resume = [SIZE] (HASH | hash-ack)* Over hash-ack*   (protocol >= 3; the SIZE only below protocol 4)
+     NUM SUCC (NAME SUCC [SIZE SUCC (DATA SUCC)* MD5 SUCC])* EXIT                                    protocol 1
+   ([tr_shape_ok]: a deterministic automaton over the tags; an archive is a NAME - with archive:true -
+   whose file is the archive stream: the same words), for every configuration, item list, schedule,
+   prior file system and list of local names: no hypothesis at all. *)
+Theorem C01_transcript_shape : forall digest H zcomp zl hx ahdr aparse c d items f0 per all,
+  tr_shape_ok digest (tr_pipeline c) (full_log digest H zcomp zl hx ahdr aparse c d items f0 per all) = true.
 Proof. exact shape_ok. Qed.
 Print Assumptions C01_transcript_shape.
+
+(* archiveSourceFiles as modelled: the items stand for exactly the source entries - every entry is
+   the item itself or one of the SubFiles of some item, and nothing else is *)
+Theorem C01_group_members : forall c ess, (forall es, In es ess -> te_subs (fst es) = []) ->
+  forall e, In e (map fst ess) <-> exists it, In it (map fst (tr_group c ess)) /\ In e (tr_members it).
+Proof. exact group_members. Qed.
+Print Assumptions C01_group_members.
 
 (* both ends of a negotiated session (C14: direct or through relays that see the same
    Windows-server fact) run the transfer with one and the same configuration *)
@@ -262,7 +321,7 @@ Theorem C01_negotiated_same_cfg : forall g win es wa so cc upload, es = [] \/ sa
 Proof. exact negotiated_same_cfg. Qed.
 Print Assumptions C01_negotiated_same_cfg.
 
-(* the well-formedness of a source list is decidable *)
+(* the well-formedness of an item list is decidable *)
 Theorem C01_wf_decidable : forall c es, tr_wfb c es = true -> tr_wf c es.
 Proof. exact tr_wfb_ok. Qed.
 Print Assumptions C01_wf_decidable.
@@ -277,18 +336,27 @@ Print Assumptions C01_codec_hypotheses_satisfiable.
 
 (* ---- non-vacuity: concrete transfers meet every premise, and the run computes ---- *)
 Definition ex_d : path := [[100]].                                 (* /d *)
+Definition ex_sc : tr_sched := mkTrSched [3; 1]%nat 2 false [0; 3] [1] None [2; 0]%nat 1 [4]%nat 3.
 (* a directory "a" with a file "x" in it, and a file "b"; /d already holds a file "a" *)
 Definition ex_tree : list (tr_entry * tr_sched) :=
-  let sc := mkTrSched [3; 1]%nat 2 false [0; 3] [1] in
-  [(mkTrEntry 0 [[97]] true [], sc);
-   (mkTrEntry 0 [[97]; [120]] false [[1; 126]; [238; 27]], sc);
-   (mkTrEntry 1 [[98]] false [], sc)].
+  [(mkTrEntry 0 [[97]] true [] [], ex_sc);
+   (mkTrEntry 0 [[97]; [120]] false [[1; 126]; [238; 27]] [], ex_sc);
+   (mkTrEntry 1 [[98]] false [] [], ex_sc)].
 Definition ex_f0 : fs := [([[100]], Dir); ([[100]; [97]], File [9])].
-Definition ex_run (c : tr_cfg) :=
-  tr_run (list byte) (fun x => x) list_eqb wit_zcomp wit_zdecomp wit_zl wit_unzl
-    (tr_fuel (list byte) wit_zcomp c ex_tree) c ex_d ex_tree ex_f0.
+(* the abstract external functions of the two sub-protocols, for the examples: the prefix digest is the
+   prefix itself (collision-free by construction); the header of the one archive entry there is (a/x,
+   4 bytes) is the line "7", which decodes to that record *)
+Definition ex_hx (l : list byte) : Resume.digest := l.
+Definition ex_ax : src := {| s_id := 0; s_rel := [[97]; [120]]; s_isdir := false; s_archive := false |}.
+Definition ex_ahdr (s : src) (sz : Z) : list byte := [55].
+Definition ex_aparse (raw : list byte) : option (src * Z) := match raw with [55] => Some (ex_ax, 4%Z) | _ => None end.
+Definition ex_run (c : tr_cfg) (ess : list (tr_entry * tr_sched)) (f0 : fs) :=
+  tr_run (list byte) (fun x => x) list_eqb wit_zcomp wit_zdecomp wit_zl wit_unzl ex_hx ex_ahdr ex_aparse
+    (tr_fuel (list byte) wit_zcomp ex_hx ex_ahdr ex_aparse c ex_d ess f0) c ex_d ess f0.
+Definition ex_spec (c : tr_cfg) (ess : list (tr_entry * tr_sched)) (f0 : fs) :=
+  tr_spec ex_hx ex_ahdr ex_aparse c ex_d (tr_group c ess) (init_state f0) [].
 Definition ex_summary (c : tr_cfg) :=
-  let cf := ex_run c in
+  let cf := ex_run c ex_tree ex_f0 in
   (tr_sender_ok _ cf, tr_receiver_ok _ cf, ss_names (cf_s _ cf), rs_names (cf_r _ cf),
    lookup (st_fs (rs_st (cf_r _ cf))) [[100]; [97; 46; 48]; [120]], lookup (st_fs (rs_st (cf_r _ cf))) [[100]; [97]],
    tr_shape_ok _ (tr_pipeline c) (cf_log _ cf)).
@@ -297,9 +365,9 @@ Definition ex_summary (c : tr_cfg) :=
    the directory lands as "a.0" next to the old file "a", which keeps its bytes *)
 Example C01_transfer_nonvacuous_v3 :
   let c := mkTrCfg 3 true true false 0 (builtin_table true) false in
-  tr_table_ok c /\ Forall (fun es => bytes_ok (te_data (fst es)) = true) ex_tree /\
-  stat ex_f0 ex_d = SFound Dir /\ tr_wf c (map fst ex_tree) /\
-  (exists r, tr_spec c ex_d (map fst ex_tree) (init_state ex_f0) [] = Some r) /\
+  tr_table_ok c /\ tr_bytes_ok (tr_group c ex_tree) /\
+  stat ex_f0 ex_d = SFound Dir /\ tr_wf c (map fst (tr_group c ex_tree)) /\
+  (exists r, ex_spec c ex_tree ex_f0 = Some r) /\
   ex_summary c = (true, true, [[97; 46; 48]; [98]], [[97; 46; 48]; [98]],
                   Some (File [1; 126; 238; 27]), Some (File [9]), true).
 Proof.
@@ -308,14 +376,70 @@ Proof.
   split; [eexists; vm_compute; reflexivity | vm_compute; reflexivity].
 Qed.
 
+(* the ARCHIVE stream: protocol 4, directory mode, overwrite off, upload - the same tree goes out as
+   two items: "a" (archive:true, SubFiles [a/x], its file = the line "7", a newline, the 4 bytes) and
+   "b"; the receiver's writer rebuilds a.0/x; NUM is 2 *)
+Example C01_transfer_nonvacuous_archive :
+  let c := mkTrCfg 4 false true false 0 [] true in
+  let items := tr_group c ex_tree in
+  map (fun es => (te_rel (fst es), map te_rel (te_subs (fst es)))) items = [([[97]], [[[97]; [120]]]); ([[98]], [])] /\
+  tr_bytes_ok items /\ tr_wf c (map fst items) /\ tr_hdrs_ok ex_ahdr ex_aparse (map fst items) /\
+  (exists r, ex_spec c ex_tree ex_f0 = Some r) /\
+  (let cf := ex_run c ex_tree ex_f0 in
+   (tr_sender_ok _ cf, tr_receiver_ok _ cf, ss_names (cf_s _ cf), rs_names (cf_r _ cf),
+    lookup (st_fs (rs_st (cf_r _ cf))) [[100]; [97; 46; 48]; [120]], lookup (st_fs (rs_st (cf_r _ cf))) [[100]; [97; 46; 48]],
+    lookup (st_fs (rs_st (cf_r _ cf))) [[100]; [97]], hd_error (cf_log _ cf), tr_shape_ok _ true (cf_log _ cf))) =
+  (true, true, [[97; 46; 48]; [98]], [[97; 46; 48]; [98]], Some (File [1; 126; 238; 27]), Some Dir, Some (File [9]),
+   Some (true, TrNum _ 2), true).
+Proof.
+  cbv zeta. split; [vm_compute; reflexivity|]. split; [repeat constructor|].
+  split; [apply tr_wfb_ok; vm_compute; reflexivity|].
+  split.
+  { intros e s He Hs. cbn in He. destruct He as [<-|[<-|[]]]; cbn in Hs; [|destruct Hs]. destruct Hs as [<-|[]].
+    repeat split; [intros [Hx|[]]; discriminate Hx]. }
+  split; [eexists; vm_compute; reflexivity | vm_compute; reflexivity].
+Qed.
+
+(* the RESUME exchange: protocol 3 and 4, overwrite on, the file "b" (6 bytes) onto an existing "b" that
+   shares its first 2 bytes and is longer: one HASH record (the block size is 10 MiB), it does not match,
+   the file is cut at 0 and written whole; and onto a "b" that is a prefix of the source: it matches,
+   only the rest is sent.  The hash sender stops after its first record (after the verdict) *)
+Definition ex_rsc : tr_sched := mkTrSched [3]%nat 2 false [] [] (Some 1%nat) [] 0 [] 1.
+Definition ex_rfile : list (tr_entry * tr_sched) := [(mkTrEntry 0 [[98]] false [[1; 2; 3]; [4; 5; 6]] [], ex_rsc)].
+Definition ex_rtags (c : tr_cfg) (f0 : fs) :=
+  let cf := ex_run c ex_rfile f0 in
+  (tr_sender_ok _ cf, tr_receiver_ok _ cf, lookup (st_fs (rs_st (cf_r _ cf))) [[100]; [98]],
+   map (fun dm => tr_tag_of _ (snd dm)) (cf_log _ cf), tr_shape_ok _ true (cf_log _ cf)).
+Example C01_transfer_nonvacuous_resume :
+  let c3 := mkTrCfg 3 false false true 2 [] true in
+  let c4 := mkTrCfg 4 false false true 2 [] true in
+  let diverging : fs := [([[100]], Dir); ([[100]; [98]], File [1; 2; 9; 9; 9; 9; 9; 9])] in
+  let prefix : fs := [([[100]], Dir); ([[100]; [98]], File [1; 2; 3; 4])] in
+  tr_wf c3 (map fst (tr_group c3 ex_rfile)) /\
+  tr_resume_safe ex_hx ex_ahdr ex_aparse c3 ex_d (tr_group c3 ex_rfile) (init_state diverging) /\
+  ex_rtags c3 diverging =
+    (true, true, Some (File [1; 2; 3; 4; 5; 6]),
+     [TgNum; TgSucc; TgName; TgSucc; TgSize; TgHash; TgOver; TgHack; TgSize; TgSucc; TgData; TgData; TgData; TgData; TgFinish;
+      TgAck; TgAck; TgAck; TgAck; TgAck; TgSucc; TgMd5; TgSucc; TgExit], true) /\
+  ex_rtags c4 prefix =
+    (true, true, Some (File [1; 2; 3; 4; 5; 6]),
+     [TgNum; TgSucc; TgName; TgSucc; TgHash; TgOver; TgHack; TgSize; TgSucc; TgData; TgData; TgFinish; TgAck; TgAck; TgAck;
+      TgSucc; TgMd5; TgSucc; TgExit], true).
+Proof.
+  cbv zeta. split; [apply tr_wfb_ok; vm_compute; reflexivity|].
+  split.
+  { cbn [tr_group tr_archive_mode tc_proto tc_overwrite negb andb ex_rfile tr_resume_safe]. split; [|destruct (tr_spec_entry _ _ _ _ _ _ _ _) as [[? ?]|]; exact I].
+    intros ln st1 _ _ k Hk. exact Hk. }
+  split; vm_compute; reflexivity.
+Qed.
+
 (* protocol 2 (compressed base64 frames), directory mode, overwrite on, upload *)
 Example C01_transfer_nonvacuous_v2 :
   let c := mkTrCfg 2 false true true 0 [] true in
   let f0 : fs := [([[100]], Dir)] in
-  tr_wf c (map fst ex_tree) /\
-  (exists r, tr_spec c ex_d (map fst ex_tree) (init_state f0) [] = Some r) /\
-  (let cf := tr_run (list byte) (fun x => x) list_eqb wit_zcomp wit_zdecomp wit_zl wit_unzl
-               (tr_fuel (list byte) wit_zcomp c ex_tree) c ex_d ex_tree f0 in
+  tr_wf c (map fst (tr_group c ex_tree)) /\
+  (exists r, ex_spec c ex_tree f0 = Some r) /\
+  (let cf := ex_run c ex_tree f0 in
    (tr_sender_ok _ cf, tr_receiver_ok _ cf, ss_names (cf_s _ cf),
     lookup (st_fs (rs_st (cf_r _ cf))) [[100]; [97]; [120]], tr_shape_ok _ true (cf_log _ cf))) =
   (true, true, [[97]; [98]], Some (File [1; 126; 238; 27]), true).
@@ -328,12 +452,11 @@ Qed.
    with one base name land as "x" and "x.0" *)
 Example C01_transfer_nonvacuous_v1 :
   let c := mkTrCfg 0 false false false 0 [] true in
-  let sc := mkTrSched [3]%nat 2 false [] [] in
-  let ess := [(mkTrEntry 0 [[120]] false [[1; 2; 3; 4; 5; 6]], sc); (mkTrEntry 1 [[120]] false [[7]], sc)] in
+  let sc := mkTrSched [3]%nat 2 false [] [] None [] 0 [] 1 in
+  let ess := [(mkTrEntry 0 [[120]] false [[1; 2; 3; 4; 5; 6]] [], sc); (mkTrEntry 1 [[120]] false [[7]] [], sc)] in
   let f0 : fs := [([[100]], Dir)] in
-  tr_wf c (map fst ess) /\
-  (let cf := tr_run (list byte) (fun x => x) list_eqb wit_zcomp wit_zdecomp wit_zl wit_unzl
-               (tr_fuel (list byte) wit_zcomp c ess) c ex_d ess f0 in
+  tr_wf c (map fst (tr_group c ess)) /\
+  (let cf := ex_run c ess f0 in
    (tr_sender_ok _ cf, tr_receiver_ok _ cf, rs_names (cf_r _ cf),
     lookup (st_fs (rs_st (cf_r _ cf))) [[100]; [120]], lookup (st_fs (rs_st (cf_r _ cf))) [[100]; [120; 46; 48]],
     tr_shape_ok _ false (cf_log _ cf))) =
@@ -345,19 +468,30 @@ Proof. cbv zeta. split; [apply tr_wfb_ok; vm_compute; reflexivity | vm_compute; 
 Example C01_refusal_nonvacuous :
   let c := mkTrCfg 2 false true true 0 [] true in
   let f0 : fs := [([[100]], Dir); ([[100]; [98]], Dir)] in
-  tr_spec c ex_d (map fst ex_tree) (init_state f0) [] = None /\
-  (let cf := tr_run (list byte) (fun x => x) list_eqb wit_zcomp wit_zdecomp wit_zl wit_unzl
-               (tr_fuel (list byte) wit_zcomp c ex_tree) c ex_d ex_tree f0 in
-   (tr_sender_ok _ cf, tr_receiver_ok _ cf)) = (false, false).
+  ex_spec c ex_tree f0 = None /\
+  (let cf := ex_run c ex_tree f0 in (tr_sender_ok _ cf, tr_receiver_ok _ cf)) = (false, false).
 Proof. cbv zeta. split; vm_compute; reflexivity. Qed.
 
-(* [tr_ready] is met by a small tree and an empty destination directory *)
+(* a resume whose hash sender stops BEFORE the verdict (a schedule the implementation cannot take:
+   stopNow is set only after matchStep was delivered): the ack reader waits for ever, nobody reports success *)
+Example C01_blocked_resume_nonvacuous :
+  let c := mkTrCfg 4 false false true 2 [] true in
+  let sc := mkTrSched [3]%nat 2 false [] [] (Some 0%nat) [] 0 [] 1 in
+  let ess := [(mkTrEntry 0 [[98]] false [[1; 2; 3]] [], sc)] in
+  let f0 : fs := [([[100]], Dir); ([[100]; [98]], File [1; 2])] in
+  ex_spec c ess f0 = None /\
+  (let cf := ex_run c ess f0 in (tr_sender_ok _ cf, tr_receiver_ok _ cf, tr_quiet _ cf)) = (false, false, true).
+Proof. cbv zeta. split; vm_compute; reflexivity. Qed.
+
+(* [tr_ready] is met by a small tree and an empty destination directory - and by a file that meets an
+   existing one (overwrite on): the resume premises are part of [tr_place_ok] *)
 Example C01_ready_nonvacuous :
   let c := mkTrCfg 4 true true true 0 (builtin_table false) true in
-  tr_ready c ex_d [([[100]], Dir)] (map fst ex_tree) /\ Forall tr_comp_ok ex_d.
+  tr_ready ex_hx c ex_d [([[100]], Dir)] (tr_group c ex_tree) /\ Forall tr_comp_ok ex_d.
 Proof.
   cbv zeta. split; [|repeat constructor].
-  unfold tr_ready. split; [|split; [|split; [|split]]].
+  change (tr_group (mkTrCfg 4 true true true 0 (builtin_table false) true) ex_tree) with ex_tree.
+  unfold tr_ready. cbv zeta. split; [|split; [|split; [|split; [|split; [|split]]]]].
   - repeat constructor; try discriminate; intros; try reflexivity; discriminate.
   - apply (nodupb_ok path_eqb); [intros a b; apply path_eqb_eq | vm_compute; reflexivity].
   - intros pre e post Hes Ht. cbv [ex_tree map fst] in Hes.
@@ -367,6 +501,88 @@ Proof.
     + exfalso. apply Ht. reflexivity.
     + destruct pre; discriminate.
   - intros e e' [<-|[<-|[<-|[]]]] [<-|[<-|[<-|[]]]]; cbn; split; intro Hx; try reflexivity; discriminate.
-  - intros e [<-|[<-|[<-|[]]]]; reflexivity.
+  - intros it [<-|[<-|[<-|[]]]]; left; reflexivity.
+  - intros e [<-|[<-|[<-|[]]]] Hne; exfalso; apply Hne; reflexivity.
+  - intro Hx. discriminate Hx.
 Qed.
 
+Example C01_ready_resume_nonvacuous :
+  let c := mkTrCfg 3 false false true 2 [] true in
+  let f0 : fs := [([[100]], Dir); ([[100]; [98]], File [1; 2; 9; 9; 9; 9; 9; 9])] in
+  let ess := [(mkTrEntry 0 [[98]] false [[1; 2; 3]; [4; 5; 6]] [], mkTrSched [3]%nat 2 false [] [] None [] 0 [] 1)] in
+  tr_ready ex_hx c ex_d f0 (tr_group c ess).
+Proof.
+  cbv zeta. unfold tr_group. cbn [tr_archive_mode tc_proto tc_overwrite negb andb].
+  unfold tr_ready. cbv zeta. split; [|split; [|split; [|split; [|split; [|split]]]]].
+  - repeat constructor; try discriminate; intros; try reflexivity; discriminate.
+  - repeat constructor. intros [].
+  - intros pre e post Hes Ht. destruct pre as [|p0 [|p1 pre]]; cbn in Hes; inversion Hes; subst. exfalso. apply Ht. reflexivity.
+  - intros e e' [<-|[]] [<-|[]]. split; reflexivity.
+  - intros it [<-|[]]. right. split; [reflexivity|]. split; [reflexivity|]. eexists. split; [reflexivity|].
+    split; [exact I | intros k Hk; exact Hk].
+  - intros e [<-|[]] Hne. exfalso. apply Hne. reflexivity.
+  - intro Hx. discriminate Hx.
+Qed.
+
+(* ---- the negotiated line terminator, Windows-console framing (Model/WireWin.v) ---- *)
+From Trzsz Require Import Model.Buffer Model.Noise Model.WireWin Proofs.WireWin.
+
+(* every DATA message pipelineSendData writes — a frame sent as assembled by sendDataWriter or
+   a piece of a frame it had to cut again because the buffer size shrank — carries the
+   NEGOTIATED newline, whatever it is: base64 mode the message is "#DATA:" payload newline,
+   binary mode its header line is "#DATA:" length newline *)
+Theorem C01_frame_terminated : forall binary nl (p : bool * list byte),
+  exists body, ww_line_part binary (length (snd p)) (wire_render_piece binary nl p) = body ++ nl /\
+    body = Consts.deliver_data_prefix ++ (if binary then wire_dec (N.of_nat (length (snd p))) else snd p).
+Proof. exact piece_terminated. Qed.
+Print Assumptions C01_frame_terminated.
+
+Theorem C01_line_terminated : forall typ payload nl,
+  wire_line typ payload nl = ([35] ++ typ ++ [58] ++ payload) ++ nl /\
+  wire_pause_line typ nl = ([35] ++ typ ++ [58; 61]) ++ nl.
+Proof. exact line_terminated. Qed.
+Print Assumptions C01_line_terminated.
+
+(* the receiver's view under the Windows framing "!\n" (regenerated from sendAction; the same
+   '!' and LF the reader of C16 looks for: windows_newline_src_ok): the frames of one file,
+   assembled or re-split in any way, followed by the finish flag, arriving in ANY chunking
+   with the cursor anywhere, possibly behind the LF left over from the previous line, are
+   read back exactly by recvLine's Windows branch (readLineOnWindows, which ends a line at
+   '!' only); the rest of the stream stays unread (possibly behind that LF) *)
+Theorem C01_frames_parse_windows : forall (ps : list (bool * list byte)) lead more off pend fuel,
+  forallb (fun p => frame_ok false (snd p)) ps = true -> (length ps < fuel)%nat ->
+  (lead = [] \/ lead = [LF]) ->
+  concat pend = lead ++ ww_wire false Consts.windows_newline (ps ++ [(true, [])]) ++ more ->
+  exists o p' lead', ww_recv fuel off pend = Some (map snd ps, (o, p')) /\
+    (lead' = [] \/ lead' = [LF]) /\ concat p' = lead' ++ more.
+Proof. exact frames_parse_windows. Qed.
+Print Assumptions C01_frames_parse_windows.
+
+(* L1 over a Windows-framed connection, end to end at the codec level: both base64 stacks,
+   any file chunking, any frame sizes, any re-splitting by pipelineSendData, any chunking of
+   the connection, any read-buffer sizes: the receiver decodes the file content *)
+Theorem C01_L1_roundtrip_windows : forall zcomp zdecomp,
+  (forall cs, zdecomp (concat (zcomp cs)) = Some (concat cs)) ->
+  (forall cs, bytes_ok (concat (zcomp cs)) = true) ->
+  forall compress t chunks sizes dflt ssizes rsizes rdflt more off pend,
+  bytes_ok (concat chunks) = true ->
+  Forall (fun s => 1 <= s)%nat rsizes -> (1 <= rdflt)%nat ->
+  let ps := wire_resplit (wire_frames sizes dflt (wire_encode zcomp false compress t chunks)) ssizes dflt in
+  concat pend = ww_wire false Consts.windows_newline (ps ++ [(true, [])]) ++ more ->
+  exists fs o p', ww_recv (S (length ps)) off pend = Some (fs, (o, p')) /\
+    wire_decode zdecomp false compress t fs rsizes rdflt = Some (concat chunks) /\
+    (concat p' = more \/ concat p' = LF :: more).
+Proof. exact L1_roundtrip_windows. Qed.
+Print Assumptions C01_L1_roundtrip_windows.
+
+(* non-vacuity, and what goes wrong when a re-split piece is written with "\n" instead: the
+   frame "n9" as assembled, the frame "Cj" cut into "C" and "j", the finish flag, chunked *)
+Example C01_windows_example :
+  ww_recv 9 0%nat [[]; [35; 68; 65; 84; 65; 58; 110; 57; 33; 10; 35; 68; 65]; [84; 65; 58; 67; 33; 10; 35; 68; 65; 84; 65; 58; 106; 33];
+               [10; 35; 68; 65; 84; 65; 58; 33; 10; 35; 77]]
+    = Some ([[110; 57]; [67]; [106]], (9%nat, [[35; 77]])) /\
+  (* the same wire with the two pieces ended by a bare LF: the pieces are lost *)
+  ww_recv 9 0%nat [[]; [35; 68; 65; 84; 65; 58; 110; 57; 33; 10; 35; 68; 65]; [84; 65; 58; 67; 10; 35; 68; 65; 84; 65; 58; 106];
+               [10; 35; 68; 65; 84; 65; 58; 33; 10; 35; 77]]
+    = Some ([[110; 57]], (9%nat, [[35; 77]])).
+Proof. vm_compute. split; reflexivity. Qed.
